@@ -529,6 +529,19 @@ def _unresolved_amount(v):
     return False
 
 
+def _unresolved_size(v):
+    """a byte count (after the format tables were applied) that still refers to an attribute of the object or of a value, or to a call that is
+    not computed: a size the model did not turn into a number"""
+    if not _rat(v):
+        return True
+    for d in C.walk_atoms(v):
+        if d[0] == "s" and d[1].startswith("self.") and d[1] not in (C.sym_name(T.WORD["op2"]), C.sym_name(T.WORD["op4"])):
+            return True
+        if d[0] == "fn" and (d[1].startswith("attr:") or (d[1].startswith("call:") and d[1] not in _MODELLED_CALLS)):
+            return True
+    return False
+
+
 def _divisor(count):
     """count = words // d  ->  d: the words one value occupies, as the reader applies it to what the header announces"""
     p = C.fn_parts(count) if _rat(count) else None
@@ -641,7 +654,8 @@ def r2_declared_sizes(ctx):
                         unresolved = {"format": txt or repr(vals[0]), "bytes": repr(nb)}
                         continue
                     size = T.numval(C.norm(size), tb)
-                    if not C.same(size, nb) and _opaque_amount(nb):
+                    if not C.same(size, nb) and (_opaque_amount(nb) or _unresolved_amount(C.norm(nb)) or _unresolved_amount(C.norm(size))):
+                        # (either side still refers to something the size model did not turn into a number: not decided)
                         unresolved = {"format": txt, "bytes": repr(nb)}
                     elif not C.same(size, nb):
                         ok, bad = False, {"format": txt.replace(T.ENDIAN, ""), "size of the format": repr(size), "bytes read": repr(nb), "keys": f"{bits}-bit",
@@ -1007,7 +1021,9 @@ def r3_sibling_decoders(ctx):
             for _path, (L_, w_, b_) in C.leaves([L, words, site["nbytes"] / site["count_ff"]]):
                 for bits in (32, 64):
                     bpv = T.numval(C.norm(b_), tb4[bits])
-                    if bpv is None or not bpv.is_const() or (bpv.const_value() / (bits // 8)).denominator != 1:
+                    if bpv is None or (not bpv.is_const() and _unresolved_amount(C.norm(bpv))):
+                        return None         # (the bytes per value are not resolved to a number: nothing to compare with)
+                    if not bpv.is_const() or (bpv.const_value() / (bits // 8)).denominator != 1:
                         return False
                     wexp = F.const(bpv.const_value() / (bits // 8))
                     got = C.refloor(T.numval(C.norm(L_, whole_values=False), tb4[bits]))
@@ -1032,7 +1048,10 @@ def r3_sibling_decoders(ctx):
                 continue
             hi, lo = F.fn("hi16", W), F.fn("lo16", W)
             ok = values_ok(d, L, hi)
-            _verdict(ctx, ok, f"{reader}: values per string = ((IS >> 16) - 1) // words-per-value", lp.node, None if ok else repr(L), L)
+            if ok is None:
+                ctx.error(f"{reader}: values per string = ((IS >> 16) - 1) // words-per-value [cannot be decided: the bytes per value are not resolved to a number]", lp.node, repr(L))
+            else:
+                _verdict(ctx, ok, f"{reader}: values per string = ((IS >> 16) - 1) // words-per-value", lp.node, None if ok else repr(L), L)
             ok = _rat(dec) and C.same(dec, hi)
             _verdict(ctx, ok, f"{reader}: words consumed per string = IS >> 16 (L + 1)", lp.node, None if ok else repr(dec), dec, pairs=[(dec, hi, True)])
             ok = _rat(r) and C.same(r, lo - 1)
@@ -1067,12 +1086,15 @@ def r3_sibling_decoders(ctx):
                 continue
             W0 = dec - 1
             ok = values_ok(d, L, W0)
-            _verdict(ctx, ok, f"{reader}: bigmat values per string = (L_header - 1) // words-per-value", lp.node, None if ok else repr(L), L)
+            if ok is None:
+                ctx.error(f"{reader}: bigmat values per string = (L_header - 1) // words-per-value [cannot be decided: the bytes per value are not resolved to a number]", lp.node, repr(L))
+            else:
+                _verdict(ctx, ok, f"{reader}: bigmat values per string = (L_header - 1) // words-per-value", lp.node, None if ok else repr(L), L)
         # the data read for the string is what the header announces
         if d["binary"]:
             tot = C.total(lp.items, "B")
             tbs = T.tables(ctx)["op4"]
-            good, detail = tot is not None and _rat(dec), None
+            good, detail, undecided = tot is not None and _rat(dec), None, False
             if not good:
                 ctx.error(f"{reader}: the bytes read per string cannot be added up (the string loop branches or loops inside)", lp.node, C.show(lp.items)[:300])
                 continue
@@ -1082,8 +1104,13 @@ def r3_sibling_decoders(ctx):
                         a, b = T.numval(C.norm(t_), tbs[bits]), T.numval(C.norm(d_ * (bits // 8)), tbs[bits])
                         if a is None or b is None or not C.same(a, b):
                             good, detail = False, {"bytes read per string": repr(a), "words counted x word size": repr(b), "keys": f"{bits}-bit", "binding": _leaf_label(path)}
-            ctx.check(good, f"{reader}: the bytes read per string (header + data) equal the words counted off for it x the word size, for both "
-                            "precisions and key widths", lp.node, detail)
+                            if a is None or b is None or _unresolved_size(a) or _unresolved_size(b):
+                                undecided = True
+            text = f"{reader}: the bytes read per string (header + data) equal the words counted off for it x the word size, for both precisions and key widths"
+            if not good and undecided:
+                ctx.error(text + " [cannot be decided: a byte count is not resolved to a number]", lp.node, detail)
+            else:
+                ctx.check(good, text, lp.node, detail)
         else:
             tot = C.total(lp.items, "L")
             pl = _lines_divisor(tot, L)
@@ -1634,7 +1661,7 @@ def r4_read_equals_skip(ctx):
             tot = C.total(body, "B")
             # the number of words of the column: third word of the 3-word head that precedes it
             nwp = [p for p, v in col.carry if _rat(v) and (_header_field(v, True) or (None, None))[:2] == ("word", 2)]
-            good, detail = tot is not None and len(nwp) == 1, None
+            good, detail, unresolved = tot is not None and len(nwp) == 1, None, False
             if good:
                 for path, (t_,) in C.leaves([tot]):
                     for bits in (32, 64):
@@ -1643,8 +1670,13 @@ def r4_read_equals_skip(ctx):
                         if a is None or b is None or not C.same(a, b):
                             good, detail = False, {"bytes read per column": repr(a), "nwords x word size + end marker + next head": repr(b), "keys": f"{bits}-bit",
                                                    "binding": _leaf_label(path)}
+                            if a is None or b is None or _unresolved_size(a) or _unresolved_size(b):
+                                unresolved = True
             if not good and (tot is None or len(nwp) != 1):
                 ctx.error(f"{reader}: the bytes read per column / the number of words of a column could not be identified", col.node, C.show(body)[:300])
+            elif not good and unresolved:
+                ctx.error(f"{reader}: per column the payload is nwords words of the key width [cannot be decided: a byte count is not resolved to a number]",
+                          col.node, detail)
             else:
                 ctx.check(good, f"{reader}: per column the payload is nwords words of the key width (both precisions, both key widths), followed by the "
                                 "end marker and the 4 + 3-word head of the next record", col.node, detail)
